@@ -11,8 +11,9 @@ CDS = "gene.cds.CDSInterval"
 FRAME = "gene.cds_frame.CDSFrame"
 
 
-def block_lists(S, name, n, nonempty=True, allow_adjacent=True):
-    """sorted, pairwise disjoint blocks (adjacent allowed): 0 <= s_k < e_k <= s_{k+1}."""
+def block_lists(S, name, n, nonempty=True, allow_adjacent=True, allow_overlap=False):
+    """sorted, pairwise disjoint blocks (adjacent allowed): 0 <= s_k < e_k <= s_{k+1}.
+    allow_overlap: only sorted by (start, end) - consecutive blocks may overlap or nest (frameshift-style layouts)."""
     old = getattr(S, "scope", None)
     if S.mode == "sym":
         S.scope = n
@@ -24,7 +25,10 @@ def block_lists(S, name, n, nonempty=True, allow_adjacent=True):
     for k in range(n):
         S.assume(And(0 <= starts[k], (starts[k] < ends[k]) if nonempty else (starts[k] <= ends[k])))
     for k in range(n - 1):
-        S.assume((ends[k] <= starts[k + 1]) if allow_adjacent else (ends[k] < starts[k + 1]))
+        if allow_overlap:
+            S.assume(Or(starts[k] < starts[k + 1], And(starts[k] == starts[k + 1], ends[k] <= ends[k + 1])))
+        else:
+            S.assume((ends[k] <= starts[k + 1]) if allow_adjacent else (ends[k] < starts[k + 1]))
     return starts, ends
 
 
